@@ -16,7 +16,8 @@ class SimStall(BaseException):
 
 class SimSource(object):
   __slots__ = ("sid", "length", "value_fn", "delivered", "attempts",
-               "budget", "slack", "overreads", "eof_hits", "log", "name")
+               "budget", "slack", "overreads", "eof_hits", "log", "name",
+               "on_eof")
 
   def __init__(self, sid, length, value_fn=None, log=None, name=None):
     self.sid = sid
@@ -30,6 +31,7 @@ class SimSource(object):
     self.eof_hits = 0
     self.log = log
     self.name = name or ("src%d" % sid)
+    self.on_eof = None
 
   def __iter__(self):
     return self
@@ -38,6 +40,8 @@ class SimSource(object):
     self.attempts += 1
     if self.length is not None and self.delivered >= self.length:
       self.eof_hits += 1
+      if self.on_eof is not None:
+        self.on_eof(self)
       raise StopIteration
     if self.budget is not None and self.delivered >= self.budget:
       self.overreads += 1
